@@ -12,11 +12,15 @@
 // ASSUMPTION (std): `impl Display for Rc<T>` delegates to T and `Display for str` writes the text itself, so
 // `<Rc<str> as ToString>::to_string()` yields a String with the same characters.  (vstd already states this
 // for `str`; `to_string_from_display_ensures` is vstd's hook for the blanket `impl<T: Display> ToString for T`.)
-#[verifier::external_body]
-pub broadcast proof fn axiom_rcstr_to_string(t: &Rc<str>, s: String)
-    ensures #[trigger] vstd::string::to_string_from_display_ensures::<Rc<str>>(t, s) <==> s@ == t@
-{ }
-broadcast use axiom_rcstr_to_string;
+pub mod map_std_axioms {
+    use vstd::prelude::*;
+    use std::rc::Rc;
+    #[verifier::external_body]
+    pub broadcast proof fn axiom_rcstr_to_string(t: &Rc<str>, s: String)
+        ensures #[trigger] vstd::string::to_string_from_display_ensures::<Rc<str>>(t, s) <==> s@ == t@
+    { }
+}
+broadcast use map_std_axioms::axiom_rcstr_to_string;
 
 // std::io::Error / ErrorKind stay the real types; they are only constructed and propagated (R5).
 #[verifier::external_type_specification]
@@ -172,7 +176,7 @@ pub open spec fn data(fmt: Fmt, v: Val) -> Option<D>
 pub open spec fn list_data(fmt: Fmt, items: Seq<Rc<Val>>) -> Option<D>
     decreases items, 2int
 {
-    if forall|i: int| 0 <= i < items.len() ==> (#[trigger] data(fmt, *items[i])) is Some {
+    if forall|i: int| 0 <= i < items.len() ==> data(fmt, *(#[trigger] items[i])) is Some {
         Some(D::List(list_entries(fmt, items, items.len() as int)))
     } else {
         None
@@ -191,7 +195,7 @@ pub open spec fn list_entries(fmt: Fmt, items: Seq<Rc<Val>>, n: int) -> Seq<D>
 pub open spec fn tuple_data(fmt: Fmt, t: Seq<(Rc<str>, Rc<Val>)>) -> Option<D>
     decreases t, 2int
 {
-    if forall|i: int| 0 <= i < t.len() ==> (#[trigger] data(fmt, *t[i].1)) is Some {
+    if forall|i: int| 0 <= i < t.len() ==> data(fmt, *(#[trigger] t[i]).1) is Some {
         Some(D::Obj(obj_fold(first_wins(fmt), tuple_entries(fmt, t, t.len() as int))))
     } else {
         None
